@@ -43,6 +43,21 @@ NEEDS = {
  "C19-2": "a declared request_body_max_bytes below the server default",
  "C20-1": "a near-miss token that only embeds the right word (websocket2, upgraded, no-upgrade)",
  "C20-2": "a channel handler doing multi-slice vectored writes to a slow reader (back-pressure between two slices)",
+ # ---- round 2 (sub-agents were asked to favour sequences / combinations)
+ "C01-3": "sorted handler list + early exit in the version search: an `..x` range registered after a newer range is appended last and missed (registration order)",
+ "C01-4": "exact route and wildcard sibling for the same method with the exact route version-limited: request for the bare prefix at a version outside the exact route's range (guard ignores the version)",
+ "C04-3": "Allow list cached per node without a version key: two 405s on one path at versions with different served methods, in sequence",
+ "C04-4": "per-node 'has versioned handlers' flag read before the wildcard hop: version-restricted wildcard endpoint, request for the bare prefix at an out-of-range version",
+ "C06-3": "document iterator skips a whole subtree when a node's handlers do not match the version: endpoint below a path whose own endpoints are version-restricted",
+ "C06-4": "per-node method map kept in registration order (IndexMap): two methods on one path with same-named distinct types registered in non-alphabetical order",
+ "C09-3": "versioned route whose versions declare different body content types: content type taken from the first-registered version",
+ "C09-4": "chunked (no declared length) body arriving in two or more frames is cut to the first frame by the buffered extractors",
+ "C11-3": "body-limit override leaks between the versions of one operation: the serving version has no override, another version has one",
+ "C11-4": "buffered extractors trust the body's size hint: chunked bodies (no upper hint) of any size are delivered",
+ "C16-3": "Detached mode + HTTP/2: handler awaited inline, cancelled on stream reset / connection close",
+ "C16-4": "connection tasks in a JoinSet with panics re-raised in the accept loop: a handler panic takes the listener and all other connections down",
+ "C17-3": "wait_for_shutdown() no longer waits for detached handlers (only close() does): Detached mode, client gone, a waiter that is not close()",
+ "C17-4": "detached handler task relies on rqctx to keep the wait-group worker alive: handler that gives up its RequestContext early, client gone, shutdown requested",
 }
 
 def main():
